@@ -13,6 +13,7 @@ import traceback
 
 from . import core
 from .core import HarnessError, VERIF
+from .report import ReportError
 
 REPLAYS = os.path.join(VERIF, "replays")
 EVIDENCE = os.path.join(VERIF, "evidence")
@@ -52,12 +53,22 @@ def _init_worker(pid):
     _prop = load_prop(pid)
 
 
+def _malformed(e):
+    # a report written by the real `group` that the independent parser cannot decode is a
+    # violation of the round trip (exact path bytes), never a harness error
+    return {"violations": [{"clause": "report-well-formed", "detail": "a report written by `group` is not decodable: %s" % e}],
+            "nontrivial": True, "sig": "malformed-report", "info": {"error": str(e)[:200]}}
+
+
 def _run_one(item):
     idx, case = item
     t0 = time.time()
     try:
         out = _prop.run_case(case)
         out.setdefault("violations", [])
+        out["ok"] = True
+    except ReportError as e:
+        out = _malformed(e)
         out["ok"] = True
     except HarnessError as e:
         out = {"ok": False, "harness_error": str(e), "violations": []}
@@ -69,7 +80,10 @@ def _run_one(item):
 
 
 def run_case_inproc(prop, case):
-    out = prop.run_case(case)
+    try:
+        out = prop.run_case(case)
+    except ReportError as e:
+        out = _malformed(e)
     out.setdefault("violations", [])
     return out
 
